@@ -1817,3 +1817,14 @@ Proof. destruct m, o; cbn; auto. Qed.
 
 Lemma propm_agree_implies_spec_ok m o : propm_obs_agrees m o = true -> propm_obs_spec_ok m o = true.
 Proof. destruct m, o; cbn; auto. Qed.
+
+(** The two readings of "which propstat decides" give the same value whenever
+    the first propstat that has the property is a successful one (in
+    particular when the name occurs once). *)
+Lemma select_propstat_alt_same ps n v :
+  select_propstat ps n = Ok v -> forall f, select_propstat_alt ps n f = Ok v.
+Proof.
+  induction ps as [|[code l] r IH]; cbn [select_propstat select_propstat_alt]; [discriminate|].
+  destruct (prop_get l n) as [w|]; [|exact IH].
+  destruct (status_err_nil code); [intros H f; exact H|discriminate].
+Qed.
